@@ -140,7 +140,6 @@ Definition spec_selected (p : params) (f : fire_in) (x : N * N) : bool :=
   | None => false
   end.
 
-Definition opt_list {A} (o : option (list A)) : list A := match o with Some l => l | None => [] end.
 
 Definition spec_fire_ok (p : params) (i : sched_in) (f : fire_in) (o : fire_out) : bool :=
   let s := f_slot f in
@@ -194,6 +193,14 @@ Definition spec_fire_ok (p : params) (i : sched_in) (f : fire_in) (o : fire_out)
                             && (if f_cp_err f || existsb (fun x => inb N.eqb (snd x) (f_contrib_err f)) aggs then true
                                 else subsetb contrib_eqb want_c got_c)
                         end))
+           (* what the root signer is asked: the slot's epoch, the slot's head root, accounts of
+              members that have one and no nil hole (a nil account fails the whole batch) *)
+           && match o_root_call o with
+              | None => true
+              | Some (accts, e, rr) =>
+                  (e =? s / spe p) && (rr =? r)
+                  && forallb (fun a => match a with Some v => inb N.eqb v sgn | None => false end) accts
+              end
        end
   end.
 
